@@ -33,6 +33,7 @@ pub struct TreeCfg {
 
 const HOSTILE_PIECES: &[&str] = &[
     " ", "  ", "\n", "\t", "'", "\"", "\\", "-", "--", "{}", "$(x)", "*", "?", "[a]", "!", "(", ")", ";", "+", ",",
+    "-delete", "-print", "-exec", "-o", "-quit", "-prune",
     "\u{e9}", "\u{1F600}", "a", "b", "Z", "0", ".", "..x", "=", "%", "%p", "\\n", "`", "&", "|", ">", "#", "~",
 ];
 
@@ -59,7 +60,7 @@ pub fn gen_name(rng: &mut Rng, style: NameStyle, raw: bool, taken: &BTreeSet<Str
                 s.push(*rng.pick(&['a', 'b', 'c', 'd', 'e', 'f', 'g', 'h']));
                 s.push(*rng.pick(&['0', '1', '2', '3', '4', '5', '6', '7', '8', '9']));
                 s.push('_');
-                let n = rng.urange(50, 240);
+                let n = if rng.chance(1, 30) { 252 } else { rng.urange(50, 240) };
                 for _ in 0..n {
                     s.push('x');
                 }
@@ -81,6 +82,13 @@ pub fn gen_name(rng: &mut Rng, style: NameStyle, raw: bool, taken: &BTreeSet<Str
                         s.push_str(*rng.pick(&["long ", "\u{e9}\u{e9}", "-x", "q"]));
                     }
                     s.truncate(s.char_indices().map(|(i, _)| i).take_while(|i| *i <= 250).last().unwrap_or(0));
+                    if !raw && rng.chance(1, 2) {
+                        // exactly NAME_MAX (255) or one less
+                        let want = *rng.pick(&[255usize, 255, 254]);
+                        while s.len() < want {
+                            s.push('z');
+                        }
+                    }
                 }
                 s
             }
